@@ -148,8 +148,9 @@ struct RealTrain {
 
 fn real_trains(tier: Tier) -> Vec<RealTrain> {
     let mut v = vec![];
-    let shapes: Vec<(usize, usize)> = if tier.thorough() { vec![(5, 2), (12, 3), (12, 5), (40, 4), (40, 2)] } else { vec![(5, 2), (12, 3), (40, 4)] };
-    for &(p, f) in &shapes {
+    // (pdu length, fragments, end fragment carries only the CRC)
+    let shapes: Vec<(usize, usize, bool)> = if tier.thorough() { vec![(5, 2, false), (12, 3, false), (12, 5, false), (40, 4, false), (40, 2, false), (12, 3, true), (40, 4, true)] } else { vec![(5, 2, false), (12, 3, false), (40, 4, false), (12, 3, true)] };
+    for &(p, f, crc_only_end) in &shapes {
         for (li, lk) in ["6B", "3B", "BC", "reuse"].iter().enumerate() {
             let l = match *lk {
                 "6B" => L6A,
@@ -173,7 +174,9 @@ fn real_trains(tier: Tier) -> Vec<RealTrain> {
             let mut pkts = vec![buf[..n].to_vec()];
             for j in 1..f {
                 let rem = p - ctx.pos as usize;
-                let b = if j + 1 < f { 3 + (rem / (f - j)).max(1) } else { 3 + rem + 4 };
+                // with crc_only_end the last-but-one buffer has room for all remaining payload but not for
+                // the CRC (remaining+3 .. remaining+6 bytes): the end fragment then carries the CRC alone
+                let b = if crc_only_end && j + 2 == f { 3 + rem + 2 } else if j + 1 < f { 3 + (rem / (f - j)).max(1) } else { 3 + rem + 4 };
                 let mut bb = vec![0u8; b];
                 match do_encap_frag(&enc, &pd, ctx, &mut bb) {
                     EncOut::Fragmented(n2, c2) => {
@@ -187,7 +190,7 @@ fn real_trains(tier: Tier) -> Vec<RealTrain> {
                     _ => break,
                 }
             }
-            v.push(RealTrain { desc: format!("pdu_len={} label={} fragments={} frag_id={}", p, lk, pkts.len(), fid), prefix, pkts, pdu: pd });
+            v.push(RealTrain { desc: format!("pdu_len={} label={} fragments={} frag_id={}{}", p, lk, pkts.len(), fid, if crc_only_end { " crc-only-end" } else { "" }), prefix, pkts, pdu: pd });
         }
     }
     v
@@ -202,6 +205,9 @@ enum Fault {
     Truncate { pkt: usize, keep: usize },
     SetByte { pkt: usize, off: usize, val: u8, what: &'static str },
     SetBytes { pkt: usize, off: usize, val: Vec<u8>, what: &'static str },
+    /// after the other faults: rewrite the trailer of the last end fragment so that it is the correct
+    /// CRC of what was actually received (a syntactically valid train not produced by encap)
+    FixCrc,
 }
 
 impl Fault {
@@ -213,6 +219,7 @@ impl Fault {
             Fault::Xor { len, .. } => if *len == 1 { "bitflip".into() } else { "burst".to_string() },
             Fault::Truncate { .. } => "truncate".into(),
             Fault::SetByte { what, .. } | Fault::SetBytes { what, .. } => what.to_string(),
+            Fault::FixCrc => "crc-recomputed".into(),
         }
     }
     fn apply(&self, seq: &mut Vec<Vec<u8>>) {
@@ -258,6 +265,28 @@ impl Fault {
             Fault::SetBytes { pkt, off, val, .. } => {
                 if *pkt < seq.len() && off + val.len() <= seq[*pkt].len() {
                     seq[*pkt][*off..off + val.len()].copy_from_slice(val);
+                }
+            }
+            Fault::FixCrc => {
+                let parsed: Vec<Option<refm::Parsed>> = seq.iter().map(|p| refm::parse(p, &no_mand).ok()).collect();
+                if let Some(e) = (0..seq.len()).rev().find(|&i| parsed[i].as_ref().map(|p| p.kind == Kind::End).unwrap_or(false)) {
+                    let id = parsed[e].as_ref().unwrap().frag_id;
+                    if let Some(f) = (0..e).rev().find(|&i| parsed[i].as_ref().map(|p| p.kind == Kind::First && p.frag_id == id).unwrap_or(false)) {
+                        let fp = parsed[f].as_ref().unwrap();
+                        let mut cat = fp.payload.clone();
+                        for i in f + 1..=e {
+                            if let Some(p) = &parsed[i] {
+                                if (p.kind == Kind::Inter || p.kind == Kind::End) && p.frag_id == id {
+                                    cat.extend_from_slice(&p.payload);
+                                }
+                            }
+                        }
+                        let c = crc_ref(fp.total_len.unwrap_or(0), fp.pt.unwrap_or(0), &fp.label, &cat);
+                        let n = seq[e].len();
+                        if n >= 4 {
+                            seq[e][n - 4..].copy_from_slice(&c.to_be_bytes());
+                        }
+                    }
                 }
             }
         }
@@ -404,7 +433,20 @@ fn part_a(rep: &Report, tier: Tier) {
                 rep.merge(acc);
             });
         }
-        rep.part(json!({"part":"A fault enumeration","train":t.desc,"single_faults":singles.len(),"double_faults":n_double,"exhaustive_burst_length":max_burst}));
+        // every structural / length fault followed by a recomputation of the CRC over what is received
+        let fix = Fault::FixCrc;
+        let structural: Vec<&Fault> = singles.iter().filter(|f| matches!(f, Fault::Drop(_) | Fault::Dup(_) | Fault::Swap(_) | Fault::Truncate { .. }) || matches!(f, Fault::SetBytes { what: "total-length", .. }) || matches!(f, Fault::SetByte { what: "frag-id", .. })).collect();
+        let n_fix = structural.len() as u64 * 2;
+        structural.par_chunks(64).enumerate().for_each(|(ci, chunk)| {
+            let mut acc = Acc::default();
+            for (k, f) in chunk.iter().enumerate() {
+                run(&[f, &fix], &mut acc, (3_000_000 + ci * 64 + k) as u64);
+                // twice the same structural fault (e.g. an intermediate fragment received three times)
+                run(&[f, f, &fix], &mut acc, (4_000_000 + ci * 64 + k) as u64);
+            }
+            rep.merge(acc);
+        });
+        rep.part(json!({"part":"A fault enumeration","train":t.desc,"single_faults":singles.len(),"double_faults":n_double,"faults_followed_by_crc_recomputation":n_fix,"exhaustive_burst_length":max_burst}));
         if ti < 3 {
             rep.sample(ti as u64, || json!({"train": t.desc, "packets": t.pkts.iter().map(|p| hex(p)).collect::<Vec<_>>(), "example_fault": format!("{:?}", singles[singles.len() / 2])}));
         }
@@ -456,6 +498,19 @@ fn b_alphabet() -> Vec<(String, Vec<u8>)> {
     let c4 = crc_ref(4 + 2 + 3, 0x0800, &L3A.bytes(), &x[..4]);
     v.push(("first-X4-id0".to_string(), Desc::first(L3A, 0x0800, 0, 4 + 2 + 3, &x[..2]).print()));
     v.push(("end-X4-id0".to_string(), Desc::end(0, &x[2..4], c4).print()));
+    // CRC-only end fragments whose trailer is the correct CRC of a concatenation that does NOT have the
+    // announced length: first+inter (2 bytes short), first+inter+inter (overshoot by 0: X complete is 6),
+    // first+inter+inter+inter (overshoot)
+    let cat = |parts: &[&[u8]]| -> Vec<u8> { parts.iter().flat_map(|p| p.iter().cloned()).collect() };
+    let short = cat(&[&x[..2], &x[2..4]]);
+    let over = cat(&[&x[..2], &x[2..4], &x[2..4], &x[2..4]]);
+    let over1 = cat(&[&x[..2], &x[2..4], &x[2..4]]);
+    v.push(("end-id0-crc-only-matching-short".to_string(), Desc::end(0, &[], crc_ref(tot(L3A), 0x0800, &L3A.bytes(), &short)).print()));
+    v.push(("end-id0-crc-only-matching-overshoot8".to_string(), Desc::end(0, &[], crc_ref(tot(L3A), 0x0800, &L3A.bytes(), &over)).print()));
+    v.push(("end-id0-crc-only-matching-6-of-dup".to_string(), Desc::end(0, &[], crc_ref(tot(L3A), 0x0800, &L3A.bytes(), &over1)).print()));
+    // a first fragment announcing a total length smaller than protocol type + label, and its CRC-only end
+    v.push(("first-X-id0-total1".to_string(), Desc::first(L3A, 0x0800, 0, 1, &x[..2]).print()));
+    v.push(("end-id0-crc-only-matching-total1".to_string(), Desc::end(0, &[], crc_ref(1, 0x0800, &L3A.bytes(), &x[..2])).print()));
     v
 }
 
@@ -502,7 +557,7 @@ pub fn b_sys() -> BSys {
 
 pub fn run(tier: Tier) -> i32 {
     let rep = Report::new("C03", tier);
-    rep.set_rule("A: fragment trains from the real encapsulator (PDUs of 5/12/40 bytes x labels 6B/3B/broadcast/re-use x 2..5 fragments) with EVERY single fault of the menu (drop, duplicate, swap, every single-bit flip incl. header bits, every burst pattern up to 10 (thorough 14) bits at every bit offset, truncation at every byte, every fragment id value, listed total-length and CRC replacements) and all ordered pairs of drop/dup/swap/bit-flip faults (quick: first four trains); B: breadth-first search over all sequences of 16 hand-built, syntactically valid fragments (trains of two different PDUs spliced on one fragment id, another id, an aliasing id, right/wrong CRC and lengths) to closure with state merging on (receiver snapshot, reference state). Oracle in both: exact 'delivered only if' evaluated on the received bytes by a reference receiver + reference CRC. distinct = fault class x deliveries / packet x outcome");
+    rep.set_rule("A: fragment trains from the real encapsulator (PDUs of 5/12/40 bytes x labels 6B/3B/broadcast/re-use x 2..5 fragments) with EVERY single fault of the menu (drop, duplicate, swap, every single-bit flip incl. header bits, every burst pattern up to 10 (thorough 14) bits at every bit offset, truncation at every byte, every fragment id value, listed total-length and CRC replacements) and all ordered pairs of drop/dup/swap/bit-flip faults (quick: first four trains), plus every structural/length/frag-id fault (once and twice) followed by a recomputation of the CRC trailer over what is actually received; trains include ones whose end fragment carries the CRC alone; B: breadth-first search over all sequences of 21 hand-built, syntactically valid fragments (incl. CRC-only end fragments whose trailer matches a concatenation of the wrong length) (trains of two different PDUs spliced on one fragment id, another id, an aliasing id, right/wrong CRC and lengths) to closure with state merging on (receiver snapshot, reference state). Oracle in both: exact 'delivered only if' evaluated on the received bytes by a reference receiver + reference CRC. distinct = fault class x deliveries / packet x outcome");
     part_a(&rep, tier);
     let sys = b_sys();
     let depth = 64;
